@@ -462,6 +462,19 @@ def readOptions : (n i : Nat) → List Int → L (List Int)
         let opts := opts.set i v
         if exact then readOptions n (i + 1) opts else pure opts
 
+/-- last header line: the five common-expression counts, read with `ReadUInt(int &accumulator)` so that the
+    running total `max_vars = num_vars + c1 + .. + ck` is checked against `INT_MAX` after every count
+    (variable/common-expression indices go from 0 to that total) -/
+def readCommonExprs (h : Header) : L Header := do
+  let (c1, acc) ← tReadUIntAcc inp h.num_vars
+  let (c2, acc) ← tReadUIntAcc inp acc
+  let (c3, acc) ← tReadUIntAcc inp acc
+  let (c4, acc) ← tReadUIntAcc inp acc
+  let (c5, _) ← tReadUIntAcc inp acc
+  tReadTillEndOfLine inp
+  pure { h with cexprs_both := c1, cexprs_cons := c2, cexprs_objs := c3, cexprs_single_cons := c4,
+                cexprs_single_objs := c5 }
+
 /-- `TextReader::ReadHeader` -/
 def readHeader : L Header := do
   let c ← readChar inp
@@ -541,16 +554,8 @@ def readHeader : L Header := do
   let max_con_name_len ← tReadUInt inp
   let max_var_name_len ← tReadUInt inp
   tReadTillEndOfLine inp
-  -- common expressions, accumulating into max_vars
-  let (c1, acc) ← tReadUIntAcc inp num_vars
-  let (c2, acc) ← tReadUIntAcc inp acc
-  let (c3, acc) ← tReadUIntAcc inp acc
-  let (c4, acc) ← tReadUIntAcc inp acc
-  let (c5, _) ← tReadUIntAcc inp acc
-  tReadTillEndOfLine inp
-  pure { h with num_con_nonzeros, num_obj_nonzeros, max_con_name_len, max_var_name_len,
-                cexprs_both := c1, cexprs_cons := c2, cexprs_objs := c3, cexprs_single_cons := c4,
-                cexprs_single_objs := c5 }
+  -- common expressions
+  readCommonExprs inp { h with num_con_nonzeros, num_obj_nonzeros, max_con_name_len, max_var_name_len }
 
 end
 
